@@ -60,8 +60,11 @@ def area_menu(nslots, circular, reduced=False):
         subs.append(["S", 1, nslots - 1 - 1, "long"])
         subs.append(["S", 2, 0, "almost-all"])
     protos = [["P"] + spec for spec in P.protocluster_menu(nslots, circular, max_core=2, products=("p",), neighbourhoods=((0, 0), (1, 1)))]
-    if reduced:
+    if reduced is True:
         protos = protos[::2]
+    elif reduced != "basic":
+        # one-sided neighbourhoods: an extent that ends exactly where its core ends (on either side)
+        protos += [["P"] + spec for spec in P.protocluster_menu(nslots, circular, max_core=1, products=("p",), neighbourhoods=((1, 0), (0, 1)))]
     return subs + protos
 
 
@@ -500,12 +503,12 @@ def shards(tier):
     out = []
     # "reduced" (every second protocluster of the menu, only sets of exactly k) is a quick-tier economy; the thorough tier
     # enumerates every set of <= 4 areas of the full menu (4-area sets are where a sweep can miss an overlap, see DESIGN 0.3)
-    plans = [(6, False, 3, False), (6, True, 4, False), (6, True, 4, "tight")]
+    plans = [(6, False, 3, False), (6, True, 3, False), (6, True, 4, "basic"), (6, True, 4, "tight")]
     if tier == "thorough":
         plans = [(6, False, 4, False), (6, True, 4, False), (7, True, 4, False), (8, True, 3, False), (8, False, 3, False),
                  (6, True, 4, "tight"), (6, False, 4, "tight"), (7, True, 4, "tight")]
     for nslots, circ, k, reduced in plans:
-        for chunk in range(N_CHUNKS * (4 if k == 4 and not reduced else 1)):
+        for chunk in range(N_CHUNKS * (4 if k == 4 and reduced in (False, "basic") else 1)):
             out.append(["areas", nslots, circ, k, reduced, chunk])
     for circ in (False, True):
         for chunk in range(N_CHUNKS):
@@ -523,10 +526,10 @@ def run_shard(shard):
         L = nslots * P.SLOT
         menu = area_menu(nslots, circ, reduced)
         index = 0
-        for size in (range(1, k + 1) if reduced is not True else (k,)):
+        for size in (range(1, k + 1) if reduced not in (True, "basic") else (k,)):
             for combo in itertools.combinations(menu, size):
                 index += 1
-                if index % (N_CHUNKS * (4 if k == 4 and not reduced else 1)) != chunk:
+                if index % (N_CHUNKS * (4 if k == 4 and reduced in (False, "basic") else 1)) != chunk:
                     continue
                 rec, objs = build_areas(nslots, circ, list(combo))
                 if rec is None:
